@@ -29,6 +29,84 @@ func VerifC05RoundRobin(n int, rounds int) {
 	}
 }
 
+// VerifC05RoundRobinEjected: a stable subset of the pool is inside an unhealthy
+// window (every subset, any rotation counter). The m eligible backends share
+// the traffic exactly: the first m picks hit each eligible backend once and the
+// sequence repeats with period m (so every window of m consecutive picks does).
+func VerifC05RoundRobinEjected(n int) {
+	lb := verifBareLB(0)
+	bs := verifPool(lb, 0, n, false)
+	m := 0
+	elig := make([]bool, n)
+	for i, b := range bs {
+		if verifrt.Bool("ejected") {
+			b.IsHealthy = false
+			b.UnhealthyUntil = verifrt.Now().Add(time.Hour)
+		} else {
+			elig[i] = true
+			m++
+		}
+	}
+	r := verifRequest("10.1.2.3:4711")
+	if m == 0 {
+		verifrt.Assert(lb.findHealthyBackend(r) == nil, "no eligible backend: no dispatch")
+		return
+	}
+	picks := make([]int, 2*m)
+	seen := make([]int, n)
+	for i := range picks {
+		b := lb.findHealthyBackend(r)
+		idx := verifIndexOf(bs, b)
+		verifrt.Assert(idx >= 0, "round_robin returns a pool member")
+		verifrt.Assert(elig[idx], "round_robin never dispatches to an ejected backend")
+		picks[i] = idx
+		if i < m {
+			seen[idx]++
+		}
+	}
+	for i := 0; i < n; i++ {
+		if elig[i] {
+			verifrt.Assert(seen[i] == 1, "round_robin with ejected members: each eligible backend gets exactly one of every m consecutive requests")
+		}
+	}
+	for i := 0; i < m; i++ {
+		verifrt.Assert(picks[i+m] == picks[i], "round_robin with ejected members: the rotation has period m")
+	}
+}
+
+// VerifC05RRConcurrentEjected: the counting claim with one ejected member:
+// concurrent pickers give each of the m = n-1 eligible backends exactly k of
+// m*k requests, however they interleave.
+func VerifC05RRConcurrentEjected(n int, threads int, perThread int) {
+	lb := verifBareLB(0)
+	bs := verifPool(lb, 0, n, false)
+	e := verifrt.Choice("ejected", n)
+	bs[e].IsHealthy = false
+	bs[e].UnhealthyUntil = verifrt.Now().Add(time.Hour)
+	r := verifRequest("10.1.2.3:4711")
+	var mu sync.Mutex
+	count := make([]int, n)
+	for t := 0; t < threads; t++ {
+		verifrt.Go(func() {
+			for i := 0; i < perThread; i++ {
+				b := lb.NextBackend(r)
+				mu.Lock()
+				count[verifIndexOf(bs, b)]++
+				mu.Unlock()
+			}
+		})
+	}
+	verifrt.WaitAll()
+	total := threads * perThread
+	for i := range count {
+		if i == e {
+			verifrt.Assert(count[i] == 0, "round_robin: an ejected backend is never picked while another is eligible")
+		} else {
+			verifrt.Assert(count[i]*(n-1) == total, "round_robin with an ejected member: concurrent pickers give every eligible backend exactly k of m*k requests")
+		}
+	}
+}
+
 // VerifC05LeastConn: whenever least_connections dispatches, the chosen
 // backend's in-flight gauge is minimal among the eligible backends.
 func VerifC05LeastConn(n int) {
